@@ -26,11 +26,14 @@ import (
 	"os"
 	"strconv"
 	"strings"
+	"time"
 
 	"github.com/sarchlab/akita/v4/sim"
+	"github.com/sarchlab/akita/v4/tracing"
 	"github.com/sarchlab/mgpusim/v4/amd/benchmarks/amdappsdk/matrixtranspose"
 	"github.com/sarchlab/mgpusim/v4/amd/benchmarks/heteromark/fir"
 	"github.com/sarchlab/mgpusim/v4/amd/driver"
+	"github.com/sarchlab/mgpusim/v4/amd/insts"
 	"github.com/sarchlab/mgpusim/v4/amd/samples/runner"
 
 	"verifharness/vh"
@@ -346,6 +349,137 @@ func (b *copyBench) Verify() {
 	}
 }
 
+// cmdTracer records, inside the engine goroutine, the simulated start and end
+// time of every driver command (tracing tasks of kind "Driver Command"), in the
+// order in which the driver starts them.
+type cmdRecord struct {
+	what       string
+	start, end sim.VTimeInSec
+}
+
+type cmdTracer struct {
+	tt    sim.TimeTeller
+	open  map[string]*cmdRecord
+	order []*cmdRecord
+}
+
+func (t *cmdTracer) StartTask(task tracing.Task) {
+	if task.Kind == "Driver Command" {
+		r := &cmdRecord{what: task.What, start: t.tt.CurrentTime(), end: -1}
+		t.open[task.ID] = r
+		t.order = append(t.order, r)
+	}
+}
+func (t *cmdTracer) StepTask(tracing.Task)          {}
+func (t *cmdTracer) AddMilestone(tracing.Milestone) {}
+func (t *cmdTracer) EndTask(task tracing.Task) {
+	if r, ok := t.open[task.ID]; ok {
+		delete(t.open, task.ID)
+		r.end = t.tt.CurrentTime()
+	}
+}
+
+type emptyKernelArgs struct {
+	HiddenGlobalOffsetX int64
+	HiddenGlobalOffsetY int64
+	HiddenGlobalOffsetZ int64
+}
+
+// settle lets the engine goroutine go idle after a drain, so that the known
+// hand-off race (C05/handoff-race) stays out of the concurrency workloads.
+func settle() { time.Sleep(150 * time.Millisecond) }
+
+func loadEmptyKernel() *insts.KernelCodeObject {
+	path := os.Getenv("C05_HSACO")
+	co := insts.LoadKernelCodeObjectFromFS(path, "")
+	if co == nil {
+		log.Panic("cannot load empty kernel from C05_HSACO=" + path)
+	}
+	return co
+}
+
+// streamsBench: one application thread, `streams` command queues on GPU 1, one
+// kernel of numWG work-groups x 16 wavefronts on each, all enqueued before the
+// first drain: several kernels in flight on one GPU whose dispatchers compete
+// for CU slots.
+type streamsBench struct {
+	drv     *driver.Driver
+	numWG   int
+	streams int
+}
+
+func (b *streamsBench) SelectGPU([]int)   {}
+func (b *streamsBench) SetUnifiedMemory() {}
+func (b *streamsBench) Verify()           {}
+func (b *streamsBench) Run() {
+	ctx := b.drv.Init()
+	b.drv.SelectGPU(ctx, 1)
+	co := loadEmptyKernel()
+	var qs []*driver.CommandQueue
+	for i := 0; i < b.streams; i++ {
+		qs = append(qs, b.drv.CreateCommandQueue(ctx))
+	}
+	const wfPerWG = 16
+	for _, q := range qs {
+		args := emptyKernelArgs{}
+		b.drv.EnqueueLaunchKernel(q, co, [3]uint32{uint32(64 * wfPerWG * b.numWG), 1, 1},
+			[3]uint16{uint16(64 * wfPerWG), 1, 1}, &args)
+	}
+	for _, q := range qs {
+		b.drv.DrainCommandQueue(q)
+	}
+	settle()
+}
+
+// multiqBench: one application thread, one queue per GPU, on each a 64 KiB
+// host-to-device copy and a kernel; host-side preparation (prepMiB MiB of a fixed
+// PRNG, > one scheduler time slice) between the submissions; ALL queues are
+// filled before the first drain.
+type multiqBench struct {
+	drv     *driver.Driver
+	gpus    []int
+	numWG   int
+	prepMiB int
+	digest  [32]byte
+}
+
+func (b *multiqBench) SelectGPU(g []int) { b.gpus = g }
+func (b *multiqBench) SetUnifiedMemory()  {}
+func (b *multiqBench) Verify()            {}
+func (b *multiqBench) Run() {
+	ctx := b.drv.Init()
+	co := loadEmptyKernel()
+	h := sha256.New()
+	var qs []*driver.CommandQueue
+	const wfPerWG = 4
+	for _, gpu := range b.gpus {
+		b.drv.SelectGPU(ctx, gpu)
+		q := b.drv.CreateCommandQueue(ctx)
+		qs = append(qs, q)
+		raw := make([]byte, b.prepMiB<<20)
+		x := uint32(12345 + gpu)
+		for i := range raw {
+			x = x*1664525 + 1013904223
+			raw[i] = byte(x >> 24)
+		}
+		data := make([]byte, 64*1024)
+		for i, v := range raw {
+			data[i%len(data)] ^= v
+		}
+		h.Write(data)
+		buf := b.drv.AllocateMemory(ctx, uint64(len(data)))
+		b.drv.EnqueueMemCopyH2D(q, buf, data)
+		args := emptyKernelArgs{}
+		b.drv.EnqueueLaunchKernel(q, co, [3]uint32{uint32(64 * wfPerWG * b.numWG), 1, 1},
+			[3]uint16{uint16(64 * wfPerWG), 1, 1}, &args)
+	}
+	for _, q := range qs {
+		b.drv.DrainCommandQueue(q)
+		settle()
+	}
+	copy(b.digest[:], h.Sum(nil))
+}
+
 func simMode(args []string) {
 	if len(args) < 3 {
 		fmt.Fprintln(os.Stderr, "usage: c05 sim <workload> <size> <rounds> -- <runner flags>")
@@ -363,6 +497,9 @@ func simMode(args []string) {
 
 	rn := new(runner.Runner).Init()
 	digest := ""
+	tr := &cmdTracer{tt: rn.Engine(), open: map[string]*cmdRecord{}}
+	tracing.CollectTrace(rn.Driver(), tr)
+	var mq *multiqBench
 	var cb *copyBench
 	switch wl {
 	case "fir":
@@ -380,6 +517,11 @@ func simMode(args []string) {
 		cb = &copyBench{drv: rn.Driver(), size: size, rounds: rounds}
 		cb.ctx = rn.Driver().Init()
 		rn.AddBenchmark(cb)
+	case "streams":
+		rn.AddBenchmark(&streamsBench{drv: rn.Driver(), numWG: size, streams: rounds})
+	case "multiq":
+		mq = &multiqBench{drv: rn.Driver(), numWG: size, prepMiB: rounds}
+		rn.AddBenchmark(mq)
 	default:
 		fmt.Fprintln(os.Stderr, "unknown workload", wl)
 		os.Exit(2)
@@ -388,8 +530,20 @@ func simMode(args []string) {
 	if cb != nil {
 		digest = hex.EncodeToString(cb.digest[:])
 	}
+	if mq != nil {
+		digest = hex.EncodeToString(mq.digest[:])
+	}
 	t := float64(rn.Engine().CurrentTime())
+	cmds := [][3]string{}
+	lastDone := sim.VTimeInSec(0)
+	for _, c := range tr.order {
+		cmds = append(cmds, [3]string{c.what, fmt.Sprintf("%.12e", float64(c.start)), fmt.Sprintf("%.12e", float64(c.end))})
+		if c.end > lastDone {
+			lastDone = c.end
+		}
+	}
 	out := map[string]any{
+		"commands": cmds, "last_command_done": fmt.Sprintf("%.12e", float64(lastDone)),
 		"workload": wl, "size": size, "rounds": rounds, "flags": strings.Join(rest, " "),
 		"final_time_bits": fmt.Sprintf("%016x", math.Float64bits(t)), "final_time": fmt.Sprintf("%.12e", t),
 		"digest": digest, "verify": rn.Verify,
